@@ -98,8 +98,11 @@ def match_matrix(rng=None, sample=None):
             e = arm_body("ELSE", [])
         else:
             e = None
-        yield Block([Asg("s", SUBJECTS[si][1]()), Asg("r", Match(Id("s"), arms, e)), Core("print", [Id("r")]),
-                     Core("print", [Id("s")]), Id("r")])
+        # every fourth case matches on a variable that the patterns bind themselves (match x / (x, y) then ...)
+        sv = "x" if (si + pi + pos) % 4 == 0 else "s"
+        # (whether a failed arm leaves partial bindings behind is not specified: x is then not read after the match)
+        yield Block([Asg(sv, SUBJECTS[si][1]()), Asg("r", Match(Id(sv), arms, e)), Core("print", [Id("r")])] +
+                    ([Core("print", [Id(sv)])] if sv == "s" else []) + [Id("r")])
 
 
 def match_alternatives(rng=None, sample=None):
